@@ -77,6 +77,11 @@ Qed.
 Lemma runner_count n : work_do_min_n <= n -> work_do_spawned n + work_do_inline_runners = n /\ work_running_is_n = true.
 Proof. unfold work_do_min_n, work_do_spawned, work_do_inline_runners, work_running_is_n. lia. Qed.
 
+(* Add signals one waiting runner for every item it queues (regenerated from the source: the only Signal in Add
+   is `if w.waiting > 0 { w.wait.Signal() }`, executed for each new item): the model's add_step does exactly this *)
+Lemma add_signal_guard : work_add_signals_when_waiting = true.
+Proof. reflexivity. Qed.
+
 Section Proofs.
 Variable n : nat.
 Variable children : item -> list item.
@@ -111,6 +116,7 @@ Inductive stepR (s : state) (t : thread) : state -> Prop :=
 | SAddDup i j ch : nth_error (pcs s) t = Some (Run i j) -> nth_error (children i) j = Some ch -> In ch (added s) ->
     stepR s t (mkState (set_nth t (Run i (S j)) (pcs s)) (todo s) (added s) (waiting s) (started s) (finished s))
 | SAddNew i j ch : nth_error (pcs s) t = Some (Run i j) -> nth_error (children i) j = Some ch -> ~ In ch (added s) ->
+    (waiting s = 0 \/ cnt is_parked (pcs s) = 0) ->
     stepR s t (mkState (set_nth t (Run i (S j)) (pcs s)) (todo s ++ [ch]) (ch :: added s) (waiting s) (started s) (finished s))
 | SAddWake i j ch k : nth_error (pcs s) t = Some (Run i j) -> nth_error (children i) j = Some ch -> ~ In ch (added s) ->
     0 < waiting s -> nth_error (set_nth t (Run i (S j)) (pcs s)) k = Some Parked ->
@@ -118,6 +124,12 @@ Inductive stepR (s : state) (t : thread) : state -> Prop :=
                        (started s) (finished s))
 | SRet i j : nth_error (pcs s) t = Some (Run i j) -> nth_error (children i) j = None ->
     stepR s t (mkState (set_nth t Top (pcs s)) (todo s) (added s) (waiting s) (started s) (i :: finished s)).
+
+Lemma existsb_false_cnt (f : pc -> bool) l : existsb f l = false -> cnt f l = 0.
+Proof.
+  induction l as [|a l IH]; [reflexivity|]. simpl. rewrite cnt_cons.
+  destruct (f a); simpl; [discriminate|auto].
+Qed.
 
 Lemma wait_or_pick_R s t c p w0 s' : entry s t p w0 -> wait_or_pick n t c s w0 = Some s' -> stepR s t s'.
 Proof.
@@ -142,11 +154,13 @@ Proof.
       * intros H; inversion H; subst; clear H. apply mem_In in Em. eapply SAddDup; eauto.
       * apply mem_false in Em.
         destruct (Nat.ltb_spec 0 (waiting s)) as [ew|ew].
-        -- unfold signal. destruct (existsb is_parked (set_nth t (Run i (S j)) (pcs s))).
+        -- unfold signal. destruct (existsb is_parked (set_nth t (Run i (S j)) (pcs s))) eqn:Ex.
            ++ destruct (nth_error (set_nth t (Run i (S j)) (pcs s)) c) as [[]|] eqn:Ek; try discriminate.
               intros H; inversion H; subst; clear H. eapply SAddWake; eauto.
-           ++ intros H; inversion H; subst; clear H. eapply SAddNew; eauto.
-        -- intros H; inversion H; subst; clear H. eapply SAddNew; eauto.
+           ++ intros H; inversion H; subst; clear H. eapply SAddNew; eauto. right.
+              apply existsb_false_cnt in Ex. pose proof (cnt_set_nth is_parked _ (Run i (S j)) _ _ Ep) as Hc.
+              simpl in Hc. lia.
+        -- intros H; inversion H; subst; clear H. eapply SAddNew; eauto. left; lia.
     + intros H; inversion H; subst; clear H. eapply SRet; eauto.
 Qed.
 
@@ -196,7 +210,7 @@ Proof.
   intros [Hlen Hw Hpl Hnd Hst Hp1 Hp2] HR.
   pose proof (cnt_partition (pcs s)) as Hpart.
   destruct HR as [p w0 c [Hn He] Htd Hc | p w0 [Hn He] Htd Hne | p w0 [Hn He] Htd Heq
-                 | i j ch Hn Hch Hin | i j ch Hn Hch Hin | i j ch k Hn Hch Hin Hwpos Hk | i j Hn Hch].
+                 | i j ch Hn Hch Hin | i j ch Hn Hch Hin Hnp | i j ch k Hn Hch Hin Hwpos Hk | i j Hn Hch].
   - (* pick *)
     set (it := nth c (todo s) 0) in *.
     pose proof (swap_remove_perm c (todo s) Hc) as Hperm. fold it in Hperm.
@@ -350,7 +364,7 @@ Lemma step_InvR s t s' : InvC s -> InvR s -> stepR s t s' -> InvR s'.
 Proof.
   intros HC [Hi Hf Hr Hre] HR.
   destruct HR as [p w0 c [Hn He] Htd Hc | p w0 [Hn He] Htd Hne | p w0 [Hn He] Htd Heq
-                 | i j ch Hn Hch Hin | i j ch Hn Hch Hin | i j ch k Hn Hch Hin Hwpos Hk | i j Hn Hch];
+                 | i j ch Hn Hch Hin | i j ch Hn Hch Hin Hnp | i j ch k Hn Hch Hin Hwpos Hk | i j Hn Hch];
     constructor; cbn [pcs todo added waiting started finished].
   - auto.
   - auto.
@@ -405,6 +419,50 @@ Lemma reachable_Inv s : reachable s -> InvC s /\ InvR s.
 Proof.
   induction 1 as [|s t c s' Hr [IHC IHR] Hs]; [split; [apply init_InvC|apply init_InvR]|].
   apply step_R in Hs. split; [eapply step_InvC|eapply step_InvR]; eauto.
+Qed.
+
+(* ---- no lost wake-up, per queued item: while a runner sleeps un-signalled, the queue is no longer than the
+   number of runners on their way to it *)
+Definition InvW (s : state) : Prop :=
+  0 < cnt is_parked (pcs s) -> length (todo s) <= cnt is_top (pcs s) + cnt is_woken (pcs s).
+
+Lemma init_InvW : InvW init.
+Proof.
+  unfold InvW, init_state. destruct (add_all inits [] []) as [td ad]. cbn [pcs todo].
+  rewrite cnt_repeat. simpl. lia.
+Qed.
+
+Lemma step_InvW s t s' : InvC s -> InvW s -> stepR s t s' -> InvW s'.
+Proof.
+  intros HC HW HR. unfold InvW in *.
+  pose proof (inv_wait _ HC) as Hw.
+  destruct HR as [p w0 c [Hn He] Htd Hc | p w0 [Hn He] Htd Hne | p w0 [Hn He] Htd Heq
+                 | i j ch Hn Hch Hin | i j ch Hn Hch Hin Hnp | i j ch k Hn Hch Hin Hwpos Hk | i j Hn Hch]; bsimp.
+  - (* pick: one item and one runner on its way fewer *)
+    cnts (Run (nth c (todo s) 0) 0) Hn.
+    pose proof (swap_remove_length c (todo s) Htd) as Hl.
+    destruct He as [[-> ->]|[-> E]]; bsimp; lia.
+  - simpl. lia.
+  - (* broadcast: nobody stays parked *)
+    pose proof (nth_wake _ _ _ Hn) as Hn'.
+    pose proof (cnt_set_nth is_parked _ Done _ _ Hn') as Hp. rewrite cnt_wake_parked in Hp.
+    simpl in Hp. lia.
+  - cnts (Run i (S j)) Hn. bsimp. lia.
+  - (* a new item and nobody to wake: nobody is parked *)
+    cnts (Run i (S j)) Hn. bsimp. destruct Hnp as [Hz|Hz]; lia.
+  - (* a new item, and Signal sends a parked runner on its way *)
+    cnts (Run i (S j)) Hn.
+    pose proof (cnt_set_nth is_top _ Woken _ _ Hk);
+    pose proof (cnt_set_nth is_parked _ Woken _ _ Hk);
+    pose proof (cnt_set_nth is_woken _ Woken _ _ Hk).
+    bsimp. rewrite app_length. simpl. lia.
+  - cnts Top Hn. bsimp. lia.
+Qed.
+
+Lemma reachable_InvW s : reachable s -> InvW s.
+Proof.
+  induction 1 as [|s t c s' Hr IH Hs]; [apply init_InvW|].
+  eapply step_InvW; eauto; [apply reachable_Inv; auto|eapply step_R; eauto].
 Qed.
 
 (* ---- property theorems *)
@@ -548,6 +606,22 @@ Proof.
   exists t, p. split; auto. destruct p; simpl in *; auto; discriminate.
 Qed.
 
+(* no lost wake-up, item by item: in every reachable state in which some runner sleeps in Wait without having
+   been signalled, each queued item has a runner of its own on its way to the queue -- at the loop head, or signalled
+   and about to re-acquire the mutex (runners inside f do not count: f may never return unless the queued items
+   run, as with items that wait for each other).  In particular an Add of k new items while k runners sleep wakes k. *)
+Theorem wakeup_per_item s : reachable s -> 0 < cnt is_parked (pcs s) ->
+  length (todo s) <= cnt is_top (pcs s) + cnt is_woken (pcs s).
+Proof. intros Hr. exact (reachable_InvW s Hr). Qed.
+
+(* the executable form evaluated on the states of the real code *)
+Theorem wakeup_ok_reachable s : reachable s -> wakeup_ok s = true.
+Proof.
+  intros Hr. pose proof (wakeup_per_item s Hr) as H. unfold wakeup_ok.
+  destruct (Nat.eqb_spec (cnt is_parked (pcs s)) 0) as [e|e]; [reflexivity|].
+  simpl. apply Nat.leb_le. apply H. lia.
+Qed.
+
 (* [enabled] (used by the runner to compare with the real scheduler's runnable set) is exact *)
 Theorem enabled_spec s t : reachable s -> (enabled s t = true <-> exists c s', step s (t, c) = Some s').
 Proof.
@@ -628,7 +702,7 @@ Proof.
   pose proof (inv_len _ HC) as Hlen.
   unfold ParWork.phi.
   destruct Hs as [p w0 c' [Hn He] Htd Hc | p w0 [Hn He] Htd Hne | p w0 [Hn He] Htd Heq
-                 | i j ch Hn Hch Hin | i j ch Hn Hch Hin | i j ch k Hn Hch Hin Hwpos Hk | i j Hn Hch]; bsimp.
+                 | i j ch Hn Hch Hin | i j ch Hn Hch Hin Hnp | i j ch k Hn Hch Hin Hwpos Hk | i j Hn Hch]; bsimp.
   - pose proof (sum_set_nth pot _ (Run (nth c' (todo s) 0) 0) _ _ Hn) as Hs.
     pose proof (swap_remove_perm c' (todo s) Hc) as Hperm.
     apply (Permutation_map wgt) in Hperm. apply list_sum_perm in Hperm.
